@@ -709,15 +709,20 @@ pub fn refresh(
 ) -> Result<(), Error> {
     verify(msk, usk)?;
 
-    let usk_id = take(&mut usk.id);
-    let new_id = msk.tsk.refresh_id(rng, usk_id)?;
+    // The USK is only modified once nothing can fail anymore.
+    let new_id = msk.tsk.refresh_id(rng, usk.id.clone())?;
 
-    let usk_rights = take(&mut usk.secrets);
+    let usk_rights = usk.secrets.clone();
     let new_rights = if keep_old_rights {
         refresh_coordinate_keys(msk, usk_rights)
     } else {
-        msk.get_latest_right_sk(usk_rights.into_keys())
-            .collect::<Result<RevisionVec<Right, RightSecretKey>, Error>>()?
+        // Rights that do not belong to the MSK anymore are dropped.
+        msk.get_latest_right_sk(
+            usk_rights
+                .into_keys()
+                .filter(|r| msk.secrets.contains_key(r)),
+        )
+        .collect::<Result<RevisionVec<Right, RightSecretKey>, Error>>()?
     };
 
     let signature = sign(msk, &new_id, &new_rights)?;
